@@ -30,6 +30,43 @@ def lit_of(n):
     return None
 
 
+def rule_escape(db, rep):
+    """R-ESCAPE: shared with C15 (a string printed with an escape the parser rejects does not survive decompile+recompile)"""
+    # ---------------- R-ESCAPE
+    fs = db.fn("<ast::LitString as fmt::Format>::fmt")
+    ps = db.fn("parse::lalrparser_util::parse_string_literal")
+    rep.fn(fs)
+    rep.fn(ps)
+
+    def char_table(fn):
+        out = {}
+        for n in hir_walk(fn.hir):
+            if n.get("k") == "Match":
+                for arm in n["arms"]:
+                    p = arm["p"]
+                    if p["k"] == "Lit" and p["v"].startswith("'"):
+                        ch = p["v"][1:-1]
+                        lits = [lit_of(x) for x in hir_walk(arm["b"]) if lit_of(x) is not None]
+                        if lits:
+                            out[ch] = lits[0]
+        return out
+    ft = char_table(fs)      # char -> escape text (e.g. '\n' -> '\\n')
+    pt = char_table(ps)      # escape letter -> char text
+    rep.floor("escapes accepted by parse_string_literal", len(pt), 5)
+    generic = sorted(set(t.get("f", "") for _, t in fs.calls() if re.search(r"::escape_(debug|default|unicode)$", t.get("f", ""))))
+    rep.check(not generic, "R-ESCAPE", "fmt|no generic escaper", fs.loc, "the formatter escapes through its own table only",
+              "the formatter escapes characters with %s, which also writes escapes (\\t, \\', \\u{..}) that parse_string_literal rejects" % generic)
+    for ch, esc in sorted(ft.items()):
+        ok = len(esc) == 2 and esc[0] == "\\" and pt.get(esc[1]) == ch
+        rep.check(ok, "R-ESCAPE", "fmt|%r" % ch, fs.loc, "%r is written as %r and %r parses back to it" % (ch, esc, esc),
+                  "%r is written as %r but the parser maps \\%s to %r" % (ch, esc, esc[1:] if esc else "", pt.get(esc[1]) if len(esc) == 2 else None))
+    for letter, ch in sorted(pt.items()):
+        rep.check(ft.get(ch) == "\\" + letter, "R-ESCAPE", "parse|\\%s" % letter, ps.loc, "escape \\%s is also produced by the formatter" % letter,
+                  "the parser accepts \\%s for %r but the formatter writes %r for that character" % (letter, ch, ft.get(ch)))
+    rep.check('"' in ft and "\\" in ft, "R-ESCAPE", "fmt|quote-and-backslash", fs.loc, "`\"` and `\\` are escaped", "the formatter does not escape both `\"` and `\\`")
+
+
+
 def rule_float(db, rep):
     """R-FLOAT: shared with C01 (a float printed in a form the lexer rejects breaks the decompile->recompile round trip)"""
     # ---------------- R-FLOAT
@@ -120,35 +157,7 @@ def run(db, tier):
                               "SuppressParens is used where the surrounding text (%r ... %r) does not delimit the expression" % (prev, nxt))
     rep.floor("SuppressParens use sites", n_sup, 6)
 
-    # ---------------- R-ESCAPE
-    fs = db.fn("<ast::LitString as fmt::Format>::fmt")
-    ps = db.fn("parse::lalrparser_util::parse_string_literal")
-    rep.fn(fs)
-    rep.fn(ps)
-
-    def char_table(fn):
-        out = {}
-        for n in hir_walk(fn.hir):
-            if n.get("k") == "Match":
-                for arm in n["arms"]:
-                    p = arm["p"]
-                    if p["k"] == "Lit" and p["v"].startswith("'"):
-                        ch = p["v"][1:-1]
-                        lits = [lit_of(x) for x in hir_walk(arm["b"]) if lit_of(x) is not None]
-                        if lits:
-                            out[ch] = lits[0]
-        return out
-    ft = char_table(fs)      # char -> escape text (e.g. '\n' -> '\\n')
-    pt = char_table(ps)      # escape letter -> char text
-    rep.floor("escaped characters", len(ft), 5)
-    for ch, esc in sorted(ft.items()):
-        ok = len(esc) == 2 and esc[0] == "\\" and pt.get(esc[1]) == ch
-        rep.check(ok, "R-ESCAPE", "fmt|%r" % ch, fs.loc, "%r is written as %r and %r parses back to it" % (ch, esc, esc),
-                  "%r is written as %r but the parser maps \\%s to %r" % (ch, esc, esc[1:] if esc else "", pt.get(esc[1]) if len(esc) == 2 else None))
-    for letter, ch in sorted(pt.items()):
-        rep.check(ft.get(ch) == "\\" + letter, "R-ESCAPE", "parse|\\%s" % letter, ps.loc, "escape \\%s is also produced by the formatter" % letter,
-                  "the parser accepts \\%s for %r but the formatter writes %r for that character" % (letter, ch, ft.get(ch)))
-    rep.check('"' in ft and "\\" in ft, "R-ESCAPE", "fmt|quote-and-backslash", fs.loc, "`\"` and `\\` are escaped", "the formatter does not escape both `\"` and `\\`")
+    rule_escape(db, rep)
 
     rule_float(db, rep)
 
